@@ -17,27 +17,50 @@ from harness.rigs import nondet_sites as sites
 
 MANIFEST = {
     "text": "Lean 4 proof, PARTIAL. Model: a run is a function of an explicit opaque environment rho (stream of unseeded identifiers - uuid4, "
-            "generated MACs -, stream of wall-clock/unseeded readings, and for every iteration of a hash-ordered set the order in which its "
-            "elements come out); the simulator is ANY program over an interface in which identifiers are equality tokens, readings reach "
-            "state only through the length of their text inside Frame.size, sets are iterated only through named consumers, and random draws "
-            "come from the seeded generator. Proved for every such simulator, schedule, seed and operation list (steps, resets with or without "
-            "seed): the canonical trajectory is the same under any two valid environments whose readings have texts of equal length "
-            "(C03_run_indep_of_env; without that side condition for a simulator that never sizes a frame from a reading); the episode after "
-            "reset(seed=s) is a function of (schedule, episode index, s, later operations) only, whatever the history (C03_reseed_reproduces); "
-            "each modelled set consumer (sorted iteration, set-to-set, length-only, dict-by-key, no-effect loop, empty/singleton set) is "
-            "permutation-invariant; every duplicate-free dependencies-first evaluation order yields the same reward table; the full "
-            "statement is refuted by the Frame.size witness (C03_full_counterexample, finding F-9). Translator tie: the nondeterminism "
-            "inventory of the whole tree (every iterated set, uuid, secrets, clock, time, id(), hash(), urandom, random/np.random use) is "
-            "regenerated as Gen/Nondet.lean and must equal, site for site, the committed discharge table (C03_inventory_discharged); reasons "
-            "resting on reading rather than on a lemma are marked byReading. Correspondence tie: identical (scenario, seed, operations) in "
-            "fresh interpreters with different PYTHONHASHSEED and logging fully on / fully off, diffed step by step on (observation, reward, "
-            "agent actions and responses, complete histories), plus re-seeded episodes compared inside each process, plus the consumer "
-            "models against the real nmap / from_config / topological_sort code.",
-    "note": "C03-specific: that the inventory is complete is the extractor's job (syntactic, name-based set tracking); that CPython behaves as "
-            "rho says (fresh uuids distinct, int hashing is the identity, dict order = insertion order) is trusted; F-9 is replayed with a "
-            "pinned clock because it cannot be hit by re-running.",
-    "technique": "Lean 4 relational proof over an effect-interpreter with an explicit opaque environment; regenerated inventory + committed "
-                 "discharge table; cross-process differential rig",
+            "generated MACs -, stream of wall-clock/unseeded readings, for every iteration of a hash-ordered set the order in which its elements "
+            "come out, and a stream of OS entropy for generators nobody seeded); the simulator is ANY program over an interface in which "
+            "identifiers are equality tokens, readings reach state only through the length of their text inside Frame.size, sets are iterated "
+            "only through named consumers, and random draws name their generator FAMILY (python random / numpy global / torch / gymnasium's "
+            "per-space generator): a draw from a family the code seeds reads that family's seeded stream, a draw from any other family reads rho. "
+            "Proved for every such simulator, schedule, seed and operation list (steps, resets with or without seed, foreign draws): the canonical "
+            "trajectory is the same under any two valid environments whose readings have texts of equal length (C03_run_indep_of_env; without "
+            "that side condition for a simulator that never sizes a frame from a reading); the episode after reset(seed=s) is a function of "
+            "(schedule, episode index, s, later operations) only, whatever the history (C03_reseed_reproduces), and so are the generator states "
+            "right after it (C03_generators_after_reseed). The SEEDING PATH AS WRITTEN is data (SeedShape: the guard chain of set_random_seed "
+            "and the test reset applies to its seed argument): for every s >= 0 INCLUDING 0 env.reset(seed=s) re-seeds with s, None and -1 leave "
+            "the generators alone, s < -1 raises (C03_reset_seed_spec), hence re-seeding reproduces the episode for every seed value in the "
+            "caller's vocabulary (C03_code_reseed_reproduces); refuted alternatives: a truthiness test on the seed (C03_truthy_seed_test_"
+            "counterexample), building the game before seeding (C03_build_before_seed_counterexample), a draw from a family that is not seeded "
+            "(C03_unseeded_family_counterexample = finding F-C03-1, repaired), a foreign draw between reset and step (C03_foreign_draw_"
+            "counterexample). Each modelled set consumer is permutation-invariant; every duplicate-free dependencies-first evaluation order "
+            "yields the same reward table; the cycle check and the dependencies-first property for every neighbour order are C10's theorem, "
+            "imported. The full statement is refuted by the Frame.size witness (C03_full_counterexample, finding F-9, open). Translator tie: (1) "
+            "the nondeterminism inventory of the whole tree (every iterated set, uuid, secrets, clock, time, id(), hash(), urandom, random / "
+            "np.random / torch / gymnasium-space draw, ordering or text use of an identifier) is regenerated as Gen/Nondet.lean WITH one "
+            "mechanical fact per site (generator family and evaluation time of a draw, constant secret length, sinks of a clock reading by a "
+            "forward data-flow, exclude= keyword, import closure, uses of a declared set, int element type, __hash__ body, never-written "
+            "attribute) and must equal, site for site, the committed discharge table (C03_inventory_discharged); the premise each reason needs "
+            "is checked against the site's fact (C03_facts_support_discharges, C03_decl_uses_discharged, C03_identifier_uses); (2) the shape of "
+            "set_random_seed / __init__ / reset is regenerated as Gen/NondetSeeding.lean and must be the shape the theorems are about, with "
+            "seeding before the construction of the game (C03_gen_seed_shape, C03_gen_seed_before_build) and every draw made at call time from a "
+            "seeded family (C03_gen_draw_families_seeded). Of 67 discharges 17 rest on a model lemma alone, 39 on a mechanical fact plus a lemma "
+            "for the kind, 7 on a mechanical fact plus a trusted runtime fact, 4 are attributed to F-9 (C03_discharge_counts); none rests on "
+            "reading alone. Correspondence tie: identical (scenario, seed, operations) in fresh interpreters whose PYTHONHASHSEED values are "
+            "chosen to give pairwise different set orders of the scenario's string vocabularies, logging fully on / fully off, diffed step by step "
+            "on (observation, reward, agent actions and responses, complete histories, generator-state digests); every seed value of the family "
+            "{configured, 0, 1, 2^32-1, random} played twice after different histories and compared inside each process (re-seed oracle, own "
+            "obligation line); scenarios: nmap scans, data_manipulation (shipped and generated action maps), uc7 TAP001/TAP003 with generated "
+            "stochastic settings (starting_nodes / target_ips lists, variance, stage probabilities), a generated routed/DMZ scenario with "
+            "random, periodic, probabilistic and data-manipulation agents, nmap, database and web traffic; the seeding path and the consumer "
+            "models against the real set_random_seed / reset / nmap / from_config / topological_sort code through the Lean driver.",
+    "note": "C03-specific: that the inventory is complete is the extractor's job (syntactic, name-based set and identifier tracking; values "
+            "that travel through pydantic serialisation are invisible to the data-flow check); that CPython behaves as rho says (fresh uuids "
+            "distinct, int hashing is the identity, dict order = insertion order) is trusted; F-9 is replayed with a pinned clock because it "
+            "cannot be hit by re-running; the multi-agent Ray environment (never calls set_random_seed) cannot be imported in this sandbox and "
+            "is not covered; torch draws do not occur in the tree and torch is only checked through its state digest.",
+    "technique": "Lean 4 relational proof over an effect-interpreter with an explicit opaque environment and generator families; regenerated "
+                 "inventory with per-site mechanical facts + committed discharge table; regenerated seeding shape; cross-process differential "
+                 "rig with a re-seed oracle",
     "design_ref": "5/C03",
 }
 MODULES = ["PrimaiteModel.Props.C03"]
@@ -318,6 +341,11 @@ def reseed_oracle(name: str, variant: str, cfg: Dict, ops: List[Any], base_v: Di
         d = None
         if ha != hb:
             d, desc = 0, {"part": "rng" if ha.get("rng") != hb.get("rng") else "obs"}
+            dd = xproc.first_diff([l for l in a[1:] if l.startswith('{"op"')], [l for l in b[1:] if l.startswith('{"op"')])
+            if dd is not None:  # the first OBSERVABLE difference, for the report
+                sa, sb = [l for l in a[1:] if l.startswith('{"op"')], [l for l in b[1:] if l.startswith('{"op"')]
+                desc["first_step_that_differs"] = dd
+                desc["step_diff"] = xproc.describe_diff(sa[dd], sb[dd]) if dd < len(sa) and dd < len(sb) else {"part": "length"}
         else:
             dd = xproc.first_diff(a[1:], b[1:])
             if dd is not None:
@@ -696,10 +724,20 @@ def run_cases(ctx: Ctx, all_cases, tag: str = "xproc") -> int:
 
 
 def run(ctx: Ctx):
+    import time as _time
+    t0 = _time.time()
+    phase: Dict[str, float] = {}
+
+    def mark(name: str):
+        nonlocal t0
+        phase[name] = round(_time.time() - t0, 1)
+        t0 = _time.time()
+    ctx.cov["phase_s"] = phase
     with lean_lock():
         ok_x = ctx.extract("Nondet", x_nondet.emit)
         ok_s = ctx.extract("NondetSeeding", x_seeding.emit)
         proved = ctx.prove(MODULES, exes=[EXE], leanchecker=ctx.thorough)
+    mark("extract+prove")
     # -- the inventory, as seen by the extractor and by an independent textual count
     new_sites: List[Tuple] = []
     if ok_x:
@@ -733,13 +771,20 @@ def run(ctx: Ctx):
                        "non-trivial = step lines whose RL action is not do-nothing or in which some scripted agent acted; component cases = one driver "
                        "line each (non-trivial = at least two elements); distinct by canonical JSON")
     # -- corpus first: the F-8 witness must no longer differ
+    mark("inventory")
     site_rig(ctx)
+    mark("site-rig")
     probe_rig(ctx)
+    mark("probe-rig")
     all_cases = []
     shipped = scen.shipped()
     for f in sorted((VERIF / "corpus" / "C03").glob("xproc_*.json")):
         c = json.loads(f.read_text())
-        cfg = _small_scan(envrig.with_proxy(scen.load_cfg(shipped[c["scenario"]]))) if "scenario" in c else c["cfg"]
+        if "cfg_yaml" in c:  # YAML text: integer keys (action maps, ports) survive
+            import yaml
+            cfg = yaml.safe_load(c["cfg_yaml"])
+        else:
+            cfg = _small_scan(envrig.with_proxy(scen.load_cfg(shipped[c["scenario"]]))) if "scenario" in c else c["cfg"]
         cfg.setdefault("game", {}).setdefault("seed", c.get("seed", 7))
         all_cases.append(("corpus:" + f.name, c.get("variant", "-"), cfg, c["ops"], c["variants"]))
     vr = ctx.rng.fork("variants")
@@ -750,10 +795,13 @@ def run(ctx: Ctx):
             hs_info[k] += info.get(k, 0)
         all_cases.append((name, variant, cfg, ops, vs))
     ctx.cov["hashseed_selection"] = hs_info
+    mark("case-generation+hashseed-selection")
     with cf.ThreadPoolExecutor(1) as ex0:
         f9_future = ex0.submit(f9_compute)  # the known finding is replayed alongside
         agree = run_cases(ctx, all_cases)
+        mark("cross-process-cases")
         f9_results = f9_future.result()
+        mark("f9-replay-tail")
     ctx.oblige("rig:R-env identical canonical trajectories across processes", "correspondence",
                not any(v["sig"].get("kind") in ("cross-process-diff", "worker-produced-nothing") for v in ctx.violations),
                f"{len(all_cases) - agree} of {len(all_cases)} cases have a violation")
